@@ -101,10 +101,11 @@ def coq_makefile():
 
 def coq_build(targets, timeout=3000):
     """Full .vo build of the given targets (never -vos). Returns (ok, log)."""
+    # serialised: concurrent regeneration of Makefile/.Makefile.d or concurrent compilation of a shared
+    # file would corrupt the build; after setup this is a no-op unless a translator changed a file
     with Lock("coq"):
         coq_makefile()
-    # make itself runs unlocked: per-property targets are disjoint apart from the stable shared files
-    rc, out = run(["make", "-j8"] + targets, cwd=COQ, timeout=timeout)
+        rc, out = run(["make", "-j8"] + targets, cwd=COQ, timeout=timeout)
     return rc == 0, out
 
 
